@@ -42,8 +42,11 @@ func (mb *c16member) endpoint() string { return "unix:" + mb.px.Listen }
 func (mb *c16member) setLeader(leader bool) error {
 	var ops []ovsdb.Operation
 	if mb.dbRow == "" {
+		// like a real ovsdb-server, the member also lists its _Server database itself (a
+		// standalone database, "leader" by definition): that row says nothing about VDB
 		ops = []ovsdb.Operation{{Op: "insert", Table: "Database", Row: ovsdb.Row{
-			"name": "VDB", "model": "clustered", "connected": true, "leader": leader, "sid": ovsdb.UUID{GoUUID: mb.sid}}}}
+			"name": "VDB", "model": "clustered", "connected": true, "leader": leader, "sid": ovsdb.UUID{GoUUID: mb.sid}}},
+			{Op: "insert", Table: "Database", Row: ovsdb.Row{"name": "_Server", "model": "standalone", "connected": true, "leader": true}}}
 	} else {
 		ops = []ovsdb.Operation{{Op: "update", Table: "Database", Where: []ovsdb.Condition{{Column: "_uuid", Function: "==", Value: ovsdb.UUID{GoUUID: mb.dbRow}}},
 			Row: ovsdb.Row{"leader": leader}}}
